@@ -273,4 +273,49 @@ func runC13(r *Run) {
 			}
 		}
 	})
+
+	r.rule("R8", "the memory backend's collector re-reads an entry under the write lock before deleting it (double-checked locking): a counter written between the scan and the delete is not lost (E1)", func() {
+		n := 0
+		for _, pkg := range []string{"internal/memory", "internal/storage/memory"} {
+			f := r.P.Func(pkg, "(*Storage).gc")
+			if f == nil {
+				continue
+			}
+			for _, d := range callsMatching(f, false, nameIs("builtin:delete")) {
+				n++
+				m := d.Common.Args[0]
+				isReRead := func(in ssa.Instruction) bool {
+					lk, ok := in.(*ssa.Lookup)
+					return ok && sameValue(lk.X, m) && sameValue(lk.Index, d.Common.Args[1])
+				}
+				okD := false
+				for _, l := range callsMatching(f, false, nameIs("(*sync.RWMutex).Lock", "(*sync.Mutex).Lock")) {
+					if _, reachable := reach(pointAfter(l.Instr), func(in ssa.Instruction) bool { return in == d.Instr }, nil, nil); reachable == nil {
+						continue
+					}
+					_, hit := reach(pointAfter(l.Instr), func(in ssa.Instruction) bool { return in == d.Instr }, nil, isReRead)
+					okD = hit == nil
+				}
+				// … and the delete is decided by that re-read value
+				if okD {
+					okD = false
+					for _, br := range branchesInOne(f) {
+						if dependsOn(br.If.Cond, func(v ssa.Value) bool {
+							lk, ok := v.(*ssa.Lookup)
+							return ok && sameValue(lk.X, m)
+						}) != nil {
+							for sl := 0; sl < 2; sl++ {
+								if dom(br.If.Block().Succs[sl], d.Block()) && len(br.If.Block().Succs[sl].Preds) == 1 {
+									okD = true
+								}
+							}
+						}
+					}
+				}
+				r.check(okD, pkg+":gc:delete-after-recheck", r.pos(d.Instr), "between taking the write lock and the delete the entry is looked up again and its expiry decides",
+					"the collector deletes the keys it collected under the read lock without looking at them again: an entry replaced in between (a request opening a new window writes a fresh counter) is deleted, the hit is lost and Max+1 requests are admitted in that window")
+			}
+		}
+		r.atLeast("collector deletes", n, 1)
+	})
 }
